@@ -200,8 +200,8 @@ func secsSML(cd ctorDef, vals []any) (s string) {
 
 func partErrored(c *vfw.Ctx) {
 	c.Rule("part B (errored items): 30 ways to build an errored leaf (bad argument per constructor, mixed valid+invalid, invalid byte size) + 9 oversize items (2^24 payload bytes / children) x {direct, nested in lists at depth 1..3 at every position vector (only/first/middle/last per level), clean siblings created before and after the errored leaf, beside untyped-nil siblings, one errored inner list shared by several parents}; " +
-		"typed-nil pointers of all 10 concrete item types as list children (3 shapes); each errored item e x 38 clean items x: Error()!=nil at the root, Equal(e,e)=Equal(e,x)=Equal(x,e)=Equal(L(e),L(x))=false, Equal to its clean look-alike false; " +
-		"hsms.NewDataMessage (W=0/1), NewDataMessageFromHeader, Derive().WithItem(e).Build(), hsmstest.FakeEndpoint.{SendDataMessage,SendDataMessageAsync,SendSECS2Message(secs2.NewMessage / gem.S1F3),ReplyDataMessage} all return an error and record nothing; " +
+		"typed-nil pointers of all 10 concrete item types as list children (3 shapes): NewListItem does not panic and no use of the list yields a message or a true Equal (a panic on use is the library's documented, test-pinned behaviour and is counted, not flagged); each errored item e x 38 clean items x: Error()!=nil at the root, Equal(e,e)=Equal(e,x)=Equal(x,e)=Equal(L(e),L(x))=false, Equal to its clean look-alike false; " +
+		"hsms.NewDataMessage (W=0/1), NewDataMessageFromHeader, Derive().WithItem(e).Build(), hsmstest.FakeEndpoint.{SendDataMessage,SendDataMessageAsync,SendSECS2Message(secs2.NewMessage / gem.S1F4),ReplyDataMessage} all return an error and record nothing; " +
 		"SML construction path: S1F1 W <T v..> for T in I1..I8,U1..U8,F4,F8,B x every numeric-string token x {1,2 values} x {Parse, ParseStrict}: refused, or a clean item holding exact / nearest-bound values (never wrapped, never errored); oversize SML texts are refused")
 	clean := cleanItems()
 	n := 0
@@ -228,9 +228,14 @@ func partErrored(c *vfw.Ctx) {
 			if !c.Next() {
 				continue
 			}
-			k, m := judgeTypedNil(tn, shape, clean)
+			k, m, panics := judgeTypedNil(tn, shape, clean)
 			c.Case(true)
-			c.Outcome("typed-nil-child")
+			if panics > 0 {
+				c.Outcome("typed-nil-child:panics-on-use(documented, nothing produced)")
+				c.Add("typed_nil_panics_on_use", int64(panics))
+			} else {
+				c.Outcome("typed-nil-child:refused-or-skipped")
+			}
 			if k != "" {
 				c.Violate(k, m, replayCase{Part: "typed-nil", Desc: fmt.Sprintf("%s/%d", tn.Name, shape)})
 			}
@@ -343,7 +348,7 @@ func replay(c *vfw.Ctx) {
 			for shape := 0; shape < 3; shape++ {
 				if fmt.Sprintf("%s/%d", tn.Name, shape) == rc.Desc {
 					c.Case(true)
-					if k, m := judgeTypedNil(tn, shape, clean); k != "" {
+					if k, m, _ := judgeTypedNil(tn, shape, clean); k != "" {
 						c.Violate(k, m, rc)
 					}
 				}
